@@ -8,11 +8,12 @@ from modq import ROUTINES, QTYPES, KINDS, GAMMAS, true_q, valid_labels, canon, c
 ID = 'C02'
 COQ_FILES = ['Base/Mat.v', 'Base/SumQ.v', 'Base/ListX.v', 'Model/Modularity.v', 'Proofs/ModularitySums.v',
              'Proofs/ModularityQ.v', 'Properties/C02.v']
-THEOREMS = ['C02_relabel_range', 'C02_relabel_same_partition', 'C02_q_closing_dir_eq_def', 'C02_q_closing_und_eq_def',
-            'C02_q_closing_sign_eq_def', 'C02_q_closing_louvain_sign_eq_def', 'C02_q_closing_louvainB_eq_def',
-            'C02_aggregate_preserves_Q', 'C02_aggregate_preserves_obj', 'C02_given_partition_returns_Q_und',
-            'C02_given_partition_returns_Q_dir', 'C02_given_partition_returns_Q_sign', 'C02_spectral_labels_partial',
-            'C02_louvain_dir_q_refuted']
+THEOREMS = ['C02_relabel_range', 'C02_relabel_same_partition', 'C02_relabel_monotone', 'C02_q_closing_dir_eq_def',
+            'C02_q_closing_und_eq_def', 'C02_q_closing_sign_eq_def', 'C02_q_closing_louvain_sign_eq_def',
+            'C02_q_closing_louvainB_eq_def', 'C02_louvainB_modularity', 'C02_louvainB_potts',
+            'C02_aggregate_preserves_Q', 'C02_aggregate_preserves_Qhalf', 'C02_aggregate_preserves_obj',
+            'C02_level_pair_consistent', 'C02_given_partition_returns_Q_und', 'C02_given_partition_returns_Q_dir',
+            'C02_given_partition_returns_Q_sign', 'C02_spectral_labels_partial', 'C02_louvain_dir_q_refuted']
 RULE = ('per routine: random structured networks n=3..9 (Erdos-Renyi at 3 densities, planted 2-3 groups, ring, star, two '
         'components, complete, one isolated node; optional self-loops) with integer weights 0..4 (binary for potts, random '
         'sign flips for the signed routines), directed where the routine accepts it, gamma in {1, 3/4, 5/4, 13/10}, all five '
@@ -42,7 +43,7 @@ def check_pair(ctx, case, ci, q, key_fn, what, n):
 def run(ctx):
     import bct
     lines, pend = [], []
-    per = ctx.scale(28, 400)
+    per = ctx.scale(70, 900)
     for fn in ROUTINES:
         R = ROUTINES[fn]
         done = 0
